@@ -185,7 +185,10 @@ class World:
             })
         cviews = []
         for cv in self.screen._ti_image_cviews:
-            canv, row, col, tl, tt, cols, rows = cv
+            canv, rest = cv[0], tuple(cv[1:])
+            if len(rest) != 6 or not all(isinstance(x, int) for x in rest):
+                rest = (-1,) * 6  # not the documented (row, col, trim_left, trim_top, cols, rows): judged as a mismatch
+            row, col, tl, tt, cols, rows = rest
             try:
                 w = self.wid_of.get(id(canv.widget_info[0]), 0)
             except Exception:
